@@ -65,6 +65,9 @@ CM = [Q(1), Q(1, 2), Q(2)]
 WM = [Q(1, 4), Q(1, 8), Q(1, 2)]
 LM = [Q(1, 2), Q(1, 4), Q(1)]
 BF = [Q(1, 2), Q(1, 4), Q(3, 4)]
+# columns family: also the three spellings of zero (int 0, 0.0, -0.0: both positions matter equally) and the documented
+# extremes (+1: only the vertical position matters, -1: only the horizontal one); raw Python values, passed on unchanged
+BF_COLUMNS = BF + [0, 0.0, -0.0, 1.0, -1]
 
 
 def G(t, u0, v0, w, h):
@@ -159,6 +162,30 @@ def fam_triple(c, tier):
         u, v = _place(g2, r23, 8, 8)
     g3 = G("c", u, v, 8, 8)
     return {"family": "triple", "glyphs": [g1, g2, g3], "params": (lo, cm, Q(1, 2), wm, Q(1, 2)), "judge_space": True, "extra_scales": ()}
+
+
+def fam_triple_back(c, tier):
+    """a wide glyph, a narrow glyph placed BACK over it (accent / overstrike / kerned back), then a third glyph whose gap to
+    the second glyph (its predecessor in the content) is on / below / above the word and character margins while it still
+    lies left of the line's right edge"""
+    w1 = c.pick([16, 24], "w1")
+    du = c.pick([2, 6], "back offset")
+    dv = c.pick([0, 2], "raise")
+    w3, h3 = c.pick([(8, 8), (16, 16)], "size3")
+    cm = c.pick([Q(1), Q(2)], "char_margin")
+    wm = c.pick(WM, "word_margin")
+    lo = Q(1, 2)
+    g1 = G("a", 0, 0, w1, 8)
+    g2 = G("b", du, dv, 4, 8)
+    om = wm * max(w3, h3)
+    mu = cm * max(4, w3)
+    gaps = []
+    for g in [Q(0)] + around(om) + around(mu):
+        if g not in gaps:
+            gaps.append(g)
+    gap = c.pick(gaps, "gap23")
+    g3 = G("c", du + 4 + gap, dv, w3, h3)
+    return {"family": "triple-back", "glyphs": [g1, g2, g3], "params": (lo, cm, Q(1, 2), wm, Q(1, 2)), "judge_space": True, "extra_scales": ()}
 
 
 def _line(texts, u0, u1, v0, h):
@@ -258,7 +285,7 @@ def _orders(n):
 def fam_columns(c, tier):
     grids = [(2, 3), (2, 2), (2, 1), (1, 3), (1, 2), (1, 1)] + ([(2, 4), (1, 4), (3, 2)] if tier == "thorough" else [])
     ncol, nrow = c.pick(grids, "grid")
-    bf = c.pick(BF, "boxes_flow")
+    bf = c.pick(BF_COLUMNS, "boxes_flow")
     pitch = c.pick([16, 24], "row pitch")
     colgap = c.pick([4, 6], "column gap in pitches") * pitch
     nlines = c.pick([1, 2], "lines per cell")
@@ -267,6 +294,7 @@ def fam_columns(c, tier):
     # single column: the top cell may be much wider than the others (same left edge)
     wide = c.pick([0, 64], "extra width of the top cell") if (ncol == 1 and nrow >= 2) else 0
     cells = []  # column-major, top to bottom
+    cell_cols = []
     letters = "abcdefghijklmnopqrstuvwxyzABCDEFGHIJKLMNOPQRSTUVWXYZ"
     k = 0
     for col in range(ncol):
@@ -279,6 +307,7 @@ def fam_columns(c, tier):
                 gl += _line(letters[k:k + 2], u0, u0 + 16 + (wide if row == 0 else 0), vtop - 8 - ln * 10, 8)
                 k += 2
             cells.append(gl)
+            cell_cols.append(col)
     perm = c.pick(_orders(len(cells)), "content order")
     glyphs = []
     for i in perm:
@@ -291,6 +320,10 @@ def fam_columns(c, tier):
         "judge_space": True,
         "extra_scales": (),
         "column_major": expected,
+        "cell_cols": cell_cols,
+        # what the documentation determines: both positions matter (|boxes_flow| < 1) -> full column-major order on a
+        # grid; +1 (only vertical matters) -> top to bottom within each column; -1 (only horizontal) -> left column first
+        "order_mode": "within-column" if bf == 1 else "columns-only" if bf == -1 else "column-major",
     }
 
 
@@ -302,7 +335,8 @@ FAMILIES = {
     "linepair": (fam_linepair, lambda t: [len(LM), 3 if t == "thorough" else 2, 7], "HV"),
     "linepair-shift": (fam_linepair_shift, lambda t: [4], "HV"),
     "chain": (fam_chain, lambda t: [27, len(CHAIN_GAPS) + 3] if t == "thorough" else [8, len(CHAIN_GAPS)], "HV"),
-    "columns": (fam_columns, lambda t: [9 if t == "thorough" else 6, len(BF)], "H"),
+    "columns": (fam_columns, lambda t: [9 if t == "thorough" else 6, len(BF_COLUMNS)], "H"),
+    "triple-back": (fam_triple_back, lambda t: [2, 2], "HV"),
 }
 
 META = {
@@ -315,7 +349,7 @@ META = {
         "(two lines: vertical gap, height difference and start/end/centre offsets each on/below/above line_margin*height "
         "of the viewing line, either line viewing, either content order; neighbours-by-half-a-unit also translated so that the near edge lies on a line of Plane's 50-unit grid; proper-overlap shift family); chain (three lines of "
         "heights 8/16 with gaps around both tolerances, all 6 content orders: connected components of an asymmetric "
-        "relation); columns (1-2 columns x 1-3 rows, 1-2 lines per cell, single column also with a wide top cell, boxes_flow {1/4,1/2,3/4}, content orders). Every "
+        "relation); triple-back (second glyph placed back over a wide first glyph, third glyph with its gap to the second on/below/above both margins); columns (1-2 columns x 1-3 rows, 1-2 lines per cell, single column also with a wide top cell, boxes_flow {1/4,1/2,3/4,0,0.0,-0.0,+1,-1}, content orders). Every "
         "family except columns is run in horizontal writing (detect_vertical=False) and mirrored into vertical writing "
         "(detect_vertical=True). Every arrangement is analysed at scale 1 and at 2^k, k in {-3,-1,1,4} (k=7 and k=10 on "
         "stated sub-families). A case is one arrangement with its LAParams (distinct by construction); non-trivial = the "
@@ -333,7 +367,7 @@ META = {
         "pairs of consecutive glyphs that satisfy the joining predicate of the *other* writing direction under detect_vertical are not judged (documentation silent)",
         "in vertical writing, the box relation of single-glyph lines is not judged (the implementation makes them horizontal lines; documentation silent)",
         "space insertion is not judged for glyph pairs placed right-to-left in content order (the documentation defines no signed gap)",
-        "box order is judged only on column grids with boxes_flow in {1/4,1/2,3/4}; hierarchical group shape is only compared across scales",
+        "box order is judged only on column grids: full column-major order for |boxes_flow| < 1 (incl. 0, 0.0, -0.0), only top-to-bottom within each column for +1, only left-column-first for -1; hierarchical group shape is only compared across scales",
         "ties between equal box distances are broken by id() (memory address) in group_textboxes -- run-to-run dependence is C12's "
         "subject; the harness substitutes a first-asked counter for the name `id` inside pdfminer.layout so that runs are reproducible",
         "scale factors beyond 2^4 are explored only on small sub-families because Plane's fixed grid size makes the analysis cost grow with the square of the scale",
@@ -375,6 +409,8 @@ def materialise(gen, orient):
     }
     if "column_major" in gen:
         case["column_major"] = gen["column_major"]
+        case["cell_cols"] = gen["cell_cols"]
+        case["order_mode"] = gen["order_mode"]
     return case
 
 
@@ -387,7 +423,7 @@ def run_impl(case, k):
     lo, cm, lm, wm, bf, dv = case["params"]
     install_stable_id().reset()
     page.analyze(
-        LAParams(line_overlap=float(lo), char_margin=float(cm), line_margin=float(lm), word_margin=float(wm), boxes_flow=float(bf), detect_vertical=dv)
+        LAParams(line_overlap=float(lo), char_margin=float(cm), line_margin=float(lm), word_margin=float(wm), boxes_flow=(float(bf) if isinstance(bf, Q) else bf), detect_vertical=dv)
     )
     ids = {id(c): i for i, c in enumerate(chars)}
     boxes = []
@@ -594,9 +630,18 @@ def compare(case, rd, lines, boxes, obs, notj):
         # expected: cells in column-major order, each cell = set of glyph texts
         got = [tuple(sorted(case["glyphs"][i][0] for ln in b[1] for i in ln[1])) for b in obs_boxes]
         want = [tuple(c) for c in case["column_major"]]
-        if got != want:
-            ncols = len({case["glyphs"][tidx[c[0]]][1] for c in want})
-            problems.append((f"C09/box-order:{'left-column-first' if ncols > 1 else 'top-to-bottom'}", want, got))
+        mode = case.get("order_mode", "column-major")
+        colof = dict(zip(want, case.get("cell_cols", [0] * len(want))))
+        if sorted(got) != sorted(want):
+            problems.append(("C09/box-order:cells-differ", want, got))
+        else:
+            cols = [colof[g] for g in got]
+            columns_ok = all(a <= b for a, b in zip(cols, cols[1:]))
+            within_ok = all([g for g in got if colof[g] == k] == [w for w in want if colof[w] == k] for k in set(cols))
+            if mode in ("column-major", "columns-only") and len(set(cols)) > 1 and not columns_ok:
+                problems.append(("C09/box-order:left-column-first", want, got))
+            elif mode in ("column-major", "within-column") and not within_ok:
+                problems.append(("C09/box-order:top-to-bottom", want, got))
     return problems
 
 
